@@ -104,8 +104,9 @@ type Scenario struct {
 	Clean       bool      `json:"clean,omitempty"` // CONNECT with clean session
 	Chunk       int       `json:"chunk,omitempty"`
 	LateWriteOK bool      `json:"late_write_ok,omitempty"`
-	Pre         []Step    `json:"pre,omitempty"`   // submitted before Connect
-	Steps       []Step    `json:"steps,omitempty"` // submitted after Connect returned
+	SlowReturn  int       `json:"slow_return,omitempty"` // transport Write returns late (see memnet.Conn.SlowReturn)
+	Pre         []Step    `json:"pre,omitempty"`         // submitted before Connect
+	Steps       []Step    `json:"steps,omitempty"`       // submitted after Connect returned
 	Faults      []Fault   `json:"faults,omitempty"`
 	DialFail    []int     `json:"dial_fail,omitempty"` // 1-based dial attempts that fail
 	OnConnect   [][]InMsg `json:"on_connect,omitempty"`
@@ -116,6 +117,7 @@ type Scenario struct {
 	PingMs      int       `json:"ping_ms,omitempty"`
 	SlowActive  bool      `json:"slow_active,omitempty"` // the ConnState(Active) callback yields for a while (steering)
 	NoSentinel  bool      `json:"no_sentinel,omitempty"`
+	KeepOpen    bool      `json:"keep_open,omitempty"` // do not disconnect at the end: the caller samples and calls Finish
 	// Steer: park the reconnect goroutine inside the ConnectOption (between SetClient
 	// and BaseClient.Connect's initialisation) of connection N and run these steps meanwhile.
 	SteerConn  int    `json:"steer_conn,omitempty"`
@@ -154,6 +156,20 @@ type Run struct {
 	RC         *mqtt.RetryClient
 	StatsEnd   mqtt.RetryStats
 	GoDump     string
+	Clients    map[int]*mqtt.BaseClient // by connection id
+	Cli        mqtt.Client
+	finishCtx  context.Context
+	cancelAll  context.CancelFunc
+}
+
+// Finish disconnects the client (tear-down); used with Scenario.KeepOpen.
+func (r *Run) Finish() {
+	if r.Cli != nil {
+		r.finish(r.Cli, r.finishCtx)
+	}
+	if r.cancelAll != nil {
+		r.cancelAll()
+	}
 }
 
 // Handled is one handler invocation.
@@ -233,7 +249,14 @@ func (d *Dialer) DialContext(ctx context.Context) (*mqtt.BaseClient, error) {
 	conn := tr.NewConn(r.Br)
 	conn.Chunk = r.Sc.Chunk
 	conn.LateWriteOK = r.Sc.LateWriteOK
+	conn.SlowReturn = r.Sc.SlowReturn
 	cli := &mqtt.BaseClient{Transport: conn}
+	tr.Mu.Lock()
+	if r.Clients == nil {
+		r.Clients = map[int]*mqtt.BaseClient{}
+	}
+	r.Clients[conn.ID] = cli
+	tr.Mu.Unlock()
 	cli.ConnState = StateCB(tr, conn.ID, func(s mqtt.ConnState, err error) {
 		if s == mqtt.StateActive && r.Sc.SlowActive {
 			for i := 0; i < 50; i++ {
@@ -297,7 +320,11 @@ func Exec(sc *Scenario) *Run {
 
 	var cli mqtt.Client
 	ctx, cancel := context.WithCancel(context.Background())
-	defer cancel()
+	if sc.KeepOpen {
+		r.finishCtx, r.cancelAll = ctx, cancel
+	} else {
+		defer cancel()
+	}
 	var connOpts []mqtt.ConnectOption
 	connOpts = append(connOpts, mqtt.WithCleanSession(sc.Clean))
 
@@ -449,6 +476,7 @@ func Exec(sc *Scenario) *Run {
 			return r
 		}
 		cli = rc
+		r.Cli = rc
 	default:
 		r.Inconcl = "unknown client kind " + sc.Client
 		return r
@@ -531,7 +559,9 @@ func Exec(sc *Scenario) *Run {
 		r.FinalSubs[f] = q
 	}
 	tr.Mu.Unlock()
-	r.finish(cli, ctx)
+	if !sc.KeepOpen {
+		r.finish(cli, ctx)
+	}
 	return r
 }
 
